@@ -12,13 +12,19 @@
    parameters) is translated into DataIR programs (Model/DataIR.v, Model/GoData.v, regenerated every run); the
    [data_*] / [drun_*] theorems say that running them returns exactly the model's nested data (Model/Data.v,
    Model/Fill.v) and panics exactly where the model says None.
+   The thin WRAPPERS of cputensor (shape helper + element generator + initWith: transpose, reshape, broadcast, slice,
+   patch, dot, matMul, reduceDimUsingFunc, constTensor, eyeMatrix) and the five cases of initTensorFromData are
+   translated too (Model/GoWrap.v); their calls of the functions above go through the oracle Model/DataExt.v, which
+   maps each callee to the model function the theorems above prove it to be; the [*_wrapper_*] theorems say the
+   wrapper returns the model tensor (and panics where the model says None) and [initTensorFromData_*] that every case
+   returns (shapeOf x, x) on data accepted by the validator.
    An edit of one of these Go functions changes GoFns.v / GoData.v and breaks the theorem unless it computes the same thing.
    Closed under the global context. *)
 From Coq Require Import String List ZArith Bool Arith.
 From Qeep Require Import Model.Scalar Model.Nd Model.Fill Model.Valid Model.GoIR Model.DataIR.
-From Qeep Require Model.Data Model.Api Model.GoFns Model.GoData.
+From Qeep Require Model.Data Model.Api Model.GoFns Model.GoData Model.DataExt Model.GoWrap.
 From Qeep Require Import Proofs.GoIRP.
-From Qeep Require Proofs.GoValidAtP Proofs.GoValidP1 Proofs.GoValidP2 Proofs.GoValidP3 Proofs.GoDimsP1 Proofs.GoDimsP2 Proofs.GoGenP1 Proofs.GoGenP2 Proofs.GoGenP3 Proofs.GoMatMulShapeP Proofs.DataAtP Proofs.DataSliceP Proofs.DataPatchP Proofs.DataApplyP Proofs.DataReduceP Proofs.DataFillP Proofs.DataLinalgP Proofs.DataConcatP.
+From Qeep Require Proofs.GoValidAtP Proofs.GoValidP1 Proofs.GoValidP2 Proofs.GoValidP3 Proofs.GoDimsP1 Proofs.GoDimsP2 Proofs.GoGenP1 Proofs.GoGenP2 Proofs.GoGenP3 Proofs.GoMatMulShapeP Proofs.DataAtP Proofs.DataSliceP Proofs.DataPatchP Proofs.DataApplyP Proofs.DataReduceP Proofs.DataFillP Proofs.DataLinalgP Proofs.DataConcatP Proofs.DataWrapP Proofs.DataFromDataP.
 Import ListNotations.
 Local Open Scope string_scope.
 
@@ -329,3 +335,50 @@ Theorem dataAt_program_is_dataAt :
   end.
 Proof. exact @DataAtP.data_dataAt. Qed.
 Print Assumptions dataAt_program_is_dataAt.
+
+Theorem transpose_wrapper_is_transpose :
+  forall (A : Type) (SA : Scalar A) (fapp : string -> list A -> option A) (red : Data.reducer)
+    (fuel depth : nat) (ds : list nat) (x : nd A),
+  2 <= Datatypes.length ds ->
+  DataWrapP.returns
+    (drun fapp unit (DataExt.dext red) GoWrap.w_transpose fuel depth [dnats ds; emb x] tt)
+    (Data.transpose {| dims := ds; data := x |}).
+Proof. exact @DataWrapP.w_transpose_run. Qed.
+Print Assumptions transpose_wrapper_is_transpose.
+
+Theorem transpose_wrapper_panics_below_rank_2 :
+  forall (A : Type) (SA : Scalar A) (fapp : string -> list A -> option A) (red : Data.reducer)
+    (fuel depth : nat) (ds : list nat) (x : nd A),
+  Datatypes.length ds < 2 ->
+  drun fapp unit (DataExt.dext red) GoWrap.w_transpose fuel depth [dnats ds; emb x] tt = DPanic unit.
+Proof. exact @DataWrapP.w_transpose_outside. Qed.
+Print Assumptions transpose_wrapper_panics_below_rank_2.
+
+Theorem dot_wrapper_is_dot :
+  forall (A : Type) (SA : Scalar A) (fapp : string -> list A -> option A) (red : Data.reducer)
+    (fuel depth : nat) (d1 : list nat) (x1 : nd A) (d2 : list nat) (x2 : nd A),
+  1 <= Datatypes.length d1 ->
+  DataWrapP.returns
+    (drun fapp unit (DataExt.dext red) GoWrap.w_dot fuel depth [dnats d1; emb x1; dnats d2; emb x2] tt)
+    (Data.dot {| dims := d1; data := x1 |} {| dims := d2; data := x2 |}).
+Proof. exact @DataWrapP.w_dot_run. Qed.
+Print Assumptions dot_wrapper_is_dot.
+
+Theorem matMul_wrapper_is_matMul :
+  forall (A : Type) (SA : Scalar A) (fapp : string -> list A -> option A) (red : Data.reducer)
+    (fuel depth : nat) (d1 : list nat) (x1 : nd A) (d2 : list nat) (x2 : nd A),
+  2 <= Datatypes.length d1 ->
+  DataWrapP.returns
+    (drun fapp unit (DataExt.dext red) GoWrap.w_matMul fuel depth [dnats d1; emb x1; dnats d2; emb x2]
+       tt) (Data.matMul {| dims := d1; data := x1 |} {| dims := d2; data := x2 |}).
+Proof. exact @DataWrapP.w_matMul_run. Qed.
+Print Assumptions matMul_wrapper_is_matMul.
+
+Theorem eyeMatrix_wrapper_is_eyeMatrix :
+  forall (A : Type) (SA : Scalar A) (fapp : string -> list A -> option A) (red : Data.reducer)
+    (fuel depth n : nat),
+  DataWrapP.returns
+    (drun fapp unit (DataExt.dext red) GoWrap.w_eyeMatrix fuel depth [DI (Z.of_nat n)] tt)
+    (Data.eyeMatrix n).
+Proof. exact @DataWrapP.w_eyeMatrix_run. Qed.
+Print Assumptions eyeMatrix_wrapper_is_eyeMatrix.
